@@ -146,7 +146,8 @@ def dormant_component(spec):
 
 
 def vtimezone(spec, tzid, form, daylight_first, nyears, fold_width=None,
-              drop=None, extra=None, dormant=None, decor=False):
+              drop=None, extra=None, dormant=None, decor=False,
+              prop_order=0):
     """Lines of one VTIMEZONE. form: 'rrule' | 'rdate'.
     drop: name of a mandatory line to leave out (malformed variants)."""
     def comp(kind):
@@ -188,6 +189,15 @@ def vtimezone(spec, tzid, form, daylight_first, nyears, fold_width=None,
                 lines.append("RDATE:" + ",".join(dates))
         if extra == "unknown_property" and kind == "STANDARD":
             lines.append("X-WHATEVER:1")
+        if prop_order:
+            # the properties of a component come in no particular order
+            # (RFC 5545): e.g. the RRULE before the DTSTART it starts from
+            body = lines[1:]
+            k = prop_order % len(body) if body else 0
+            body = body[k:] + body[:k]
+            if prop_order % 2:
+                body.reverse()
+            lines = lines[:1] + body
         lines.append("END:" + ("DAYLIGHT" if kind == "STANDARD" else
                                "STANDARD")
                      if extra == "wrong_component_end" and kind == "STANDARD"
@@ -297,6 +307,8 @@ def generate(cls, rng):
               multi=rng.random() < 0.4, other=other, other_form=other_form,
               dormant=rng.choice([None, None, "after", "before"]),
               decor=rng.random() < 0.3,
+              prop_order=rng.choice([0, 0, 0, 1, 2, 3, 4, 5]),
+              calendars=rng.choice(["one", "one", "one", "each"]),
               fwd=rng.choice([0, 0, 0, 6, rng.randrange(7)]),
               blank_ids=rng.random() < 0.3,
               source=rng.choice(["stringio", "stringio", "path", "crlf"]))
@@ -374,7 +386,12 @@ def build_text(sc):
                            sc["nyears"], sc.get("fold_width"),
                            dormant=sc.get("dormant")
                            if tzid == id1 else None,
-                           decor=bool(sc.get("decor")))
+                           decor=bool(sc.get("decor")),
+                           prop_order=sc.get("prop_order", 0))
+        if sc.get("calendars") == "each" and (tzid, spec, form) != zones[-1]:
+            # several calendar objects in one stream (RFC 5545 3.4): each
+            # zone definition sits in a VCALENDAR of its own
+            lines += ["END:VCALENDAR", "BEGIN:VCALENDAR", "VERSION:2.0"]
     if sc.get("decor"):
         # other calendar components around the zone definitions are none of
         # the zone reader's business
